@@ -465,4 +465,27 @@ func bridgeProgs() []string {
 	return out
 }
 
+// labelProgs: a break (or continue) that leaves a labelled statement of every
+// statement kind, as a program, inside a function and inside eval code, with
+// the completion value then used.
+func labelProgs() []string {
+	stmts := []string{"a:if(1)break a;", "a:if(0);else break a;", "a:try{break a}finally{}", "a:try{throw 1}catch(e){break a}", "a:with({})break a;", "a:switch(1){case 1:break a}",
+		"a:{break a}", "a:for(;;){break a}", "a:b:c:if(1)break b;", "a:b:if(1)break a;", "a:x=1;", "a:;", "a:var v=1;", "a:do{continue a}while(0);", "a:for(var k in {p:1}){b:if(k)continue a}",
+		"a:if(1){b:if(1)break a;x=2}", "a:try{b:try{break a}finally{x=3}}finally{x=4}", "a:if(1)c:for(;;)break a;", "a:debugger;", "a:function(){};", "a:1;"}
+	var out []string
+	for _, st := range stmts {
+		q := strconv.Quote(st)
+		out = append(out,
+			"var x=0;"+st+"x=5;x",
+			"var v=eval("+q+");typeof v",
+			"var v=eval("+q+");String(v)+[v].join()+(v+1)",
+			"typeof (function(){"+st+"})()",
+			"(function(){"+st+"return 5})()",
+			"var v=(0,eval)("+q+");v===undefined",
+			"Function("+q+")()",
+		)
+	}
+	return out
+}
+
 var _ = otto.New
